@@ -206,11 +206,12 @@ Fixpoint eval (dm : datamodel) (e : expr) : option Z :=
 Definition const_eval (dm : datamodel) (e : expr) : option (ity * Z) :=
   match eval dm e with Some v => Some (type_of dm e, v) | None => None end.
 
-(* ---- object representation of an integer (6.2.6.1): n bytes, little endian ---- *)
+(* ---- object representation of an integer (6.2.6.1/6.2.6.2, two's complement): n bytes.
+   Floor division and modulo by 256 produce exactly the two's complement digits of a negative v. ---- *)
 Fixpoint le_bytes (n : nat) (v : Z) : list Z :=
   match n with O => [] | S n' => (v mod 256) :: le_bytes n' (v / 256) end.
 Definition bytes_of (little : bool) (nbytes : Z) (v : Z) : list Z :=
-  let l := le_bytes (Z.to_nat nbytes) (v mod 2 ^ (8 * nbytes)) in if little then l else rev l.
+  let l := le_bytes (Z.to_nat nbytes) v in if little then l else rev l.
 
 (* ---- #if expressions (6.10.1p4): every signed operand has type intmax_t, every unsigned one
    uintmax_t; otherwise the rules above. Data model: int = long = long long = 64 bits. ---- *)
